@@ -15,7 +15,11 @@ Rej(r, what, detail) == PrintT("REJECT " \o ToJson(<<"C19", r.id \o "#" \o ToStr
 CallIds(r, dir) == LET c == SelectSeq(r.calls, LAMBDA x : x.dir = dir) IN [j \in 1..Len(c) |-> c[j].h]
 
 \* type of the single outbound message a step produces ("" = none)
-OutType(a) == IF a.a = "send" THEN "V" ELSE IF a.a = "recv" /\ a.ty = "1" THEN "0" ELSE ""
+\* (the peer's Logout is answered by a Logout; its second Logon by a Logon on the accepting side only - the role is not part of
+\*  the records, so for that step a message is expected exactly when one was offered to the handlers or transmitted)
+OutTypeOf(r) == LET a == r.a IN
+                IF a.a = "send" THEN "V" ELSE IF a.a = "recv" /\ a.ty = "1" THEN "0" ELSE IF a.a = "recv" /\ a.ty = "5" THEN "5"
+                ELSE IF a.a = "recv" /\ a.ty = "A" /\ (r.wire # <<>> \/ \E j \in 1..Len(r.calls) : r.calls[j].dir = "out") THEN "A" ELSE ""
 
 \* a served ResendRequest: the stored messages pass the outgoing handlers again (no new numbers): every message on
 \* the wire was (re-)saved under its own number, and the numbers are ascending from 1
@@ -28,10 +32,10 @@ ResendOk(r) ==
 
 StepOk(r) ==
   IF r.a.a = "recv" /\ r.a.ty = "2" THEN ResendOk(r) ELSE
-  LET ot == OutType(r.a)
+  LET ot == OutTypeOf(r)
       saveOk == ot = "" \/ (nsave + 1 # failAt)
       expOut == IF ot = "" THEN <<>> ELSE Ids(OutCalls(hs, ot, saveOk))
-      expIn == IF r.a.a = "recv" THEN Ids(InCalls(hs, IF r.a.ty \in {"1", "0", "d", "v"} THEN r.a.ty ELSE "D")) ELSE <<>>
+      expIn == IF r.a.a = "recv" THEN Ids(InCalls(hs, IF r.a.ty \in {"1", "0", "d", "v", "5", "A"} THEN r.a.ty ELSE "D")) ELSE <<>>
       tx == ot # "" /\ Transmitted(hs, ot, saveOk)
       outCalls == SelectSeq(r.calls, LAMBDA x : x.dir = "out")
       IsMutator(id) == \E j \in 1..Len(hs) : hs[j].id = id /\ hs[j].mutate
